@@ -392,11 +392,96 @@ fn with_implicit_imports(types: &Types, w: wac_types::WorldId, d: D) -> D {
     D::Component(imports, exports)
 }
 
+/// `wac_types::validate_target` called directly on hand-built collections (public API): worlds
+/// whose items are *type* items (`promote`), versioned names on both sides, shadowed names
+fn api_case(out: &mut Out, r: &mut Rng) {
+    use wac_types::PrimitiveType as P;
+    let f0 = func(false, &[], None);
+    let f1 = func(false, &[("x", D::Prim(P::U8))], None);
+    let i1 = D::Instance(named(&[("f", f0.clone())]));
+    let i2 = D::Instance(named(&[("f", f0.clone()), ("g", f0.clone())]));
+    let pick_item = |r: &mut Rng, as_type: bool| -> D {
+        let d = match r.below(4) {
+            0 => f0.clone(),
+            1 => f1.clone(),
+            2 => i1.clone(),
+            _ => i2.clone(),
+        };
+        if as_type { D::Type(Box::new(d)) } else { d }
+    };
+    let names = ["a", "p:q/i@0.2.0", "p:q/i@0.2.1", "p:q/i@1.0.0", "b"];
+    let mut wi = Vec::new();
+    let mut we_ = Vec::new();
+    let mut ci = Vec::new();
+    let mut ce = Vec::new();
+    for n in names {
+        if r.chance(1, 2) {
+            let ty = r.chance(1, 2);
+            wi.push((n.to_string(), pick_item(r, ty)));
+        }
+        if r.chance(1, 3) {
+            let ty = r.chance(1, 2);
+            we_.push((n.to_string(), pick_item(r, ty)));
+        }
+        if r.chance(1, 2) {
+            ci.push((n.to_string(), pick_item(r, false)));
+        }
+        if r.chance(1, 2) {
+            ce.push((n.to_string(), pick_item(r, false)));
+        }
+    }
+    let mut t = Types::default();
+    let (w, c) = {
+        let mut b = Builder::new(&mut t, r.chance(1, 2));
+        let w = b.kind(&D::Component(wi, we_));
+        let c = b.kind(&D::Component(ci, ce));
+        (w, c)
+    };
+    let (ItemKind::Component(w), ItemKind::Component(c)) = (w, c) else { return };
+    let report = guarded(std::panic::AssertUnwindSafe(|| wac_types::validate_target(&t, w, c)));
+    let mut fields = vec![esc(&ser_types(&t, 2)), format!("{w}"), format!("{c}")];
+    match report {
+        Ok(Ok(())) => {
+            out.count("api:ok");
+            fields.push("ok".into());
+        }
+        Ok(Err(rep)) => {
+            out.count("api:report");
+            fields.push("report".into());
+            let a: Vec<&str> = rep.imports_not_in_target().collect();
+            fields.push(a.len().to_string());
+            fields.extend(a.iter().map(|s| esc(s)));
+            let b: Vec<&str> = rep.missing_exports().map(|(n, _)| n).collect();
+            fields.push(b.len().to_string());
+            fields.extend(b.iter().map(|s| esc(s)));
+            let m: Vec<(&str, &ExternKind, &anyhow::Error)> = rep.mismatched_types().collect();
+            fields.push(m.len().to_string());
+            for (n, k, e) in m {
+                fields.push(esc(n));
+                fields.push(match k {
+                    ExternKind::Import => "import".into(),
+                    ExternKind::Export => "export".into(),
+                });
+                fields.push(esc(&format!("{e:#}")));
+            }
+        }
+        Err(p) => {
+            let id = format!("bin-{}", out.n + 1);
+            out.fail(&id, "validate_target panicked", &p);
+            fields.push("none".into());
+        }
+    }
+    out.case(true, "bin", &fields);
+}
+
 fn generate(args: &Args, seed: u64, thorough: bool, shard: usize, nshards: usize, path: &str) {
     let mut r = Rng::new(seed ^ ((shard as u64).wrapping_mul(0x9E37_79B9)) ^ 0xC11);
     let tier = if thorough { "t" } else { "q" };
     let mut out = Out::create(path, &format!("c11-{tier}{seed}-{shard}of{nshards}-"));
     let n = if thorough { 15_000 } else { args.num("n", 400) } / nshards;
+    for _ in 0..(n * 2) {
+        api_case(&mut out, &mut r);
+    }
     for _ in 0..n {
         let versions = [None, Some("0.2.0"), Some("0.2.1"), Some("1.0.0"), Some("1.1.0")];
         let tv = *r.pick(&versions);
